@@ -37,7 +37,8 @@ def _hdr(run, key, dflt="?"):
 
 def _classify(ctx, mode, env, r, dist):
     """returns True when the run counts as validated"""
-    text = "mode=%s seed=%d env=%s\nRUN %s\n%s" % (mode, r["seed"], env, " ".join(r["header"]), "\n".join(r["lines"][-600:]))
+    shown = [l for l in r["lines"] if not (l.startswith("0 st l") or l.startswith("0 ld lpop"))]   # drop queue construction noise
+    text = "mode=%s seed=%d env=%s\nRUN %s\n%s" % (mode, r["seed"], env, " ".join(r["header"]), "\n".join(shown[-600:]))
     rep = r["replay"] or ""
     if r["oracle"]:
         dist["oracle"] += 1
@@ -46,16 +47,22 @@ def _classify(ctx, mode, env, r, dist):
         return False
     v = r["verdict"]
     if v in ("deadlock", "step-limit"):
-        if rep.startswith("ok"):
+        # oracle on the real execution, independent of the model: the run hung; that is the documented
+        # blocking submit iff every worker that has not exited is inside a submission of a child and
+        # the last queue ticket it took is a push ticket of the global queue
+        bad = _stall_not_by_design(r)
+        if bad is None:
             dist["stall_by_design"] += 1
-            return True
-        if "stall: worker" in rep and "rLPub" in rep:
+            if rep.startswith("ok"):
+                return True
+            dist["replay_diverge"] += 1
+            ctx.broke("correspondence", "E-CONC replay c07 mode=%s seed=%d (stalled run)" % (mode, r["seed"]), "%s\n%s" % (rep, text))
+            return False
+        if "rLPub" in rep or bad[1] == "local-push":
             dist["stall_balancer_hold"] += 1
-            ctx.failing_input("stall:balancer-holds-local-slot", text + "\n# " + rep)
-        elif rep.startswith("diverge at end of trace: stall"):
-            ctx.failing_input("stall:%s:other" % (mode if mode != "hold" else "pool"), text + "\n# " + rep)
+            ctx.failing_input("stall:balancer-holds-local-slot", text + "\n# worker %s: %s\n# %s" % (bad[0], bad[1], rep))
         else:
-            ctx.failing_input("stall:%s:unexplained" % (mode if mode != "hold" else "pool"), text + "\n# " + rep)
+            ctx.failing_input("stall:%s:%s" % (mode if mode != "hold" else "pool", bad[1]), text + "\n# worker %s: %s\n# %s" % (bad[0], bad[1], rep))
         return False
     if v != "ok":
         ctx.failing_input("verdict:%s:%s" % (mode, v.split()[0]), text + "\n" + r.get("stderr", ""))
@@ -66,6 +73,42 @@ def _classify(ctx, mode, env, r, dist):
     dist["replay_diverge"] += 1
     ctx.broke("correspondence", "E-CONC replay c07 mode=%s seed=%d" % (mode, r["seed"]), "%s\n%s" % (rep, text))
     return False
+
+
+def _stall_not_by_design(r):
+    """None if the stalled run is the documented blocking submit, else (worker tid, reason)."""
+    if _hdr(r, "mode") != "pool":
+        return ("-", "stall")
+    w = int(_hdr(r, "W", "0") or 0)
+    last_ev, last_tk, exited = {}, {}, set()
+    for l in r["lines"]:
+        ws = l.split()
+        if len(ws) < 2 or not ws[0].isdigit():
+            continue
+        t = int(ws[0])
+        if ws[1] == "exit":
+            exited.add(t)
+        elif ws[1] == "ev" and len(ws) > 2 and ws[2] in ("submit", "accept", "run", "done"):
+            last_ev[t] = ws[2]
+            if ws[2] == "submit":
+                last_tk[t] = None
+        elif ws[1] == "rmw" and "gpush" in l:
+            last_tk[t] = "gpush"
+        elif ws[1] == "rmw" and "gpop" in l:
+            last_tk[t] = "gpop"
+        elif ws[1] == "st" and " lpush." in l:
+            last_tk[t] = "lpush"
+    live = [t for t in range(1, w + 1) if t not in exited]
+    if not live:
+        return ("-", "no-live-worker")
+    for t in live:
+        if last_ev.get(t) != "submit":
+            return (t, "worker-not-submitting" if last_tk.get(t) != "gpop" else "worker-waits-on-global-pop")
+        if last_tk.get(t) == "lpush":
+            return (t, "local-push")
+        if last_tk.get(t) != "gpush":
+            return (t, "worker-not-in-global-push")
+    return None
 
 
 def _corpus():
@@ -104,7 +147,7 @@ def run(ctx):
         n *= 4
     seed0 = ctx.seed * 1000003
     dist = {"modes": {}, "verdicts": {}, "replay_ok": 0, "replay_diverge": 0, "oracle": 0, "stall_by_design": 0,
-            "stall_balancer_hold": 0, "W": {}, "L": {}, "G": {}, "steal": {}, "bal_us": {}, "klass": {}, "dtor": {}, "wait": {},
+            "stall_balancer_hold": 0, "W": {}, "L": {}, "G": {}, "steal": {}, "bal_us": {}, "klass": {}, "dtor": {}, "wait": {}, "linger": {},
             "local_pushes": 0, "local_claims": 0, "balancer_forwards": 0, "global_tickets": 0, "rejects": 0,
             "scope_submits": 0, "wakeups": 0, "tasks_run": 0, "max_trace": 0}
     distinct = set()
@@ -128,7 +171,7 @@ def run(ctx):
             ok = _classify(ctx, mode, env, r, dist)
             lines = r["lines"]
             if mode in ("pool", "hold"):
-                for k in ("W", "L", "G", "steal", "klass", "dtor", "wait"):
+                for k in ("W", "L", "G", "steal", "klass", "dtor", "wait", "linger"):
                     v = _hdr(r, k)
                     dist[k][v] = dist[k].get(v, 0) + 1
                 v = _hdr(r, "balus")
@@ -152,7 +195,7 @@ def run(ctx):
                 distinct.add(sha("\n".join(l for l in lines if " ev stats" not in l)))
             if len(samples) < 1 and mode == "pool" and ok and 80 < len(lines) < 400:
                 samples.append([l for l in lines if not (l.startswith("0 st l") or l.startswith("0 ld lpop"))][:80])
-            if len(ctx.failing) + len(ctx.broken) > 12:
+            if len(ctx.failing) > 24:
                 break
     ctx.cov["distribution"] = dist
     ctx.cov["distinct_nontrivial"] = len(distinct)
